@@ -271,9 +271,137 @@ theorem punct_reads [NumOps N] {cc : CharClass} (hcc : cc.AsciiOk) (x rest : Str
     ⟨rfl, rfl⟩ | ⟨rfl, rfl⟩ | ⟨rfl, rfl⟩ | ⟨rfl, rfl⟩ | ⟨rfl, rfl⟩ | ⟨rfl, rfl⟩ | ⟨rfl, rfl⟩ | ⟨rfl, rfl⟩
   all_goals
     refine ⟨_, _, rfl, ?_, ?_⟩
-  all_goals try (apply skipWs_noop _ _ (by decide) (by decide)) 
-  all_goals trace_state
-  all_goals sorry
+  all_goals try (apply skipWs_noop _ _ (by decide) (by decide))
+  all_goals simp only [List.append_eq, List.nil_append, List.cons_append]
+  all_goals first
+    | (intro h; exact absurd h (by decide))
+    | (intro _ r hr'; subst hr'; have := hr.of_cons; simp [fuse] at this)
+    | skip
+  all_goals
+    simp (disch := decide) only [nextToken, special_identStart hcc, special_numeric hcc, Bool.false_eq_true,
+      if_false, if_true, Char.reduceEq, greater, lesser]
+  all_goals
+    cases rest with
+    | nil => rfl
+    | cons d r =>
+      have := hr.of_cons
+      simp only [fuse, Bool.or_eq_false_iff, beq_eq_false_iff_ne, ne_eq] at this
+      simp [this]
+
+/-- the one-token lemma: at a token boundary, a lexeme of `t` followed by text that does not continue it is read
+    as `t`, leaving exactly that text -/
+theorem lexeme_reads [NumOps N] {cc : CharClass} (hcc : cc.AsciiOk) {t : Token N} {x : Str} (rest : Str)
+    (hx : Lexeme cc t x) (hr : NoCont cc t x rest) : ReadsAs cc (x ++ rest) t rest := by
+  cases hx with
+  | punct h => exact punct_reads hcc x rest t h hr
+  | word hs hk =>
+    have := identShape_reads (N := N) hcc x rest hs (by rw [← kwToken_fuse cc _ x t hk]; exact hr)
+    rw [hk] at this; exact this
+  | ident hs hk =>
+    have := identShape_reads (N := N) hcc x rest hs hr
+    rw [hk] at this; exact this
+  | num hs hp =>
+    obtain ⟨c, cs, h1, h2, h3⟩ := numShape_reads (N := N) hcc x rest hs hr
+    rw [hp] at h3
+    exact ⟨c, cs, h1, h2, h3⟩
+  | str => exact quote_reads hcc _ rest hr
+
+theorem Lexeme.ne_nil [NumOps N] {cc : CharClass} {t : Token N} {x : Str} (hx : Lexeme cc t x) : x ≠ [] := by
+  cases hx with
+  | punct h =>
+    simp only [Scanner.punct, List.mem_cons, Prod.mk.injEq, List.not_mem_nil, or_false] at h
+    rcases h with ⟨rfl, _⟩ | ⟨rfl, _⟩ | ⟨rfl, _⟩ | ⟨rfl, _⟩ | ⟨rfl, _⟩ | ⟨rfl, _⟩ | ⟨rfl, _⟩ |
+      ⟨rfl, _⟩ | ⟨rfl, _⟩ | ⟨rfl, _⟩ | ⟨rfl, _⟩ | ⟨rfl, _⟩ | ⟨rfl, _⟩ | ⟨rfl, _⟩ | ⟨rfl, _⟩ <;> simp
+  | word hs _ => intro h; subst h; simp [identShape] at hs
+  | ident hs _ => intro h; subst h; simp [identShape] at hs
+  | num hs _ => intro h; subst h; simp [numShape] at hs
+  | str => simp [quote]
+
+/-- every token consumes at least its first character -/
+theorem nextToken_length [NumOps N] (cc : CharClass) (c : Char) (cs : Str) (t : Token N) (rest : Str)
+    (h : nextToken cc c cs = .ok (t, rest)) : rest.length ≤ cs.length := by
+  have hdw : ∀ (p : Char → Bool) (l : Str), (l.dropWhile p).length ≤ l.length := fun p l =>
+    List.Sublist.length_le (List.dropWhile_sublist p)
+  have hnum : ∀ r, number (N := N) cc c cs = .ok (t, r) → r.length ≤ cs.length := by
+    intro r hn
+    simp only [number] at hn
+    split at hn
+    · cases hn
+      simp only [numberLex]
+      split
+      · rename_i r' hr'
+        have h1 := hdw cc.isNumeric cs
+        have h2 := hdw cc.isNumeric r'
+        rw [hr'] at h1; simp only [List.length_cons] at h1
+        simp only; omega
+      · exact hdw _ _
+    · cases hn
+  rw [nextToken] at h
+  by_cases h1 : isIdentStart cc c = true
+  · rw [if_pos h1] at h; cases h; exact hdw _ _
+  rw [if_neg h1] at h
+  by_cases h2 : cc.isNumeric c = true
+  · rw [if_pos h2] at h; exact hnum _ h
+  rw [if_neg h2] at h
+  by_cases h3 : c = '\''
+  · rw [if_pos h3] at h
+    simp only [string] at h
+    split at h
+    · cases h
+    · rename_i raw f r hs
+      cases h
+      exact Nat.le_of_lt (strRaw_length cs _ hs)
+  rw [if_neg h3] at h
+  by_cases h4 : c = '.'
+  · rw [if_pos h4] at h; exact hnum _ h
+  rw [if_neg h4] at h
+  by_cases hc : c = '('
+  · rw [if_pos hc] at h; cases h; exact Nat.le_refl _
+  rw [if_neg hc] at h; clear hc
+  by_cases hc : c = ')'
+  · rw [if_pos hc] at h; cases h; exact Nat.le_refl _
+  rw [if_neg hc] at h; clear hc
+  by_cases hc : c = '['
+  · rw [if_pos hc] at h; cases h; exact Nat.le_refl _
+  rw [if_neg hc] at h; clear hc
+  by_cases hc : c = ']'
+  · rw [if_pos hc] at h; cases h; exact Nat.le_refl _
+  rw [if_neg hc] at h; clear hc
+  by_cases hc : c = ','
+  · rw [if_pos hc] at h; cases h; exact Nat.le_refl _
+  rw [if_neg hc] at h; clear hc
+  by_cases hc : c = '+'
+  · rw [if_pos hc] at h; cases h; exact Nat.le_refl _
+  rw [if_neg hc] at h; clear hc
+  by_cases hc : c = '-'
+  · rw [if_pos hc] at h; cases h; exact Nat.le_refl _
+  rw [if_neg hc] at h; clear hc
+  by_cases hc : c = '*'
+  · rw [if_pos hc] at h; cases h; exact Nat.le_refl _
+  rw [if_neg hc] at h; clear hc
+  by_cases hc : c = '/'
+  · rw [if_pos hc] at h; cases h; exact Nat.le_refl _
+  rw [if_neg hc] at h; clear hc
+  by_cases hc : c = '='
+  · rw [if_pos hc] at h; cases h; exact Nat.le_refl _
+  rw [if_neg hc] at h; clear hc
+  by_cases hg : c = '>'
+  · rw [if_pos hg] at h
+    simp only [greater] at h
+    split at h
+    · split at h <;> cases h <;> simp
+    · cases h; simp
+  rw [if_neg hg] at h
+  by_cases hl : c = '<'
+  · rw [if_pos hl] at h
+    simp only [lesser] at h
+    split at h
+    · split at h
+      · cases h; simp
+      · split at h <;> cases h <;> simp
+    · cases h; simp
+  rw [if_neg hl] at h
+  cases h
 
 end
 end Scanner
